@@ -1,1 +1,6 @@
 ENTRIES = {}
+ENTRIES['C05'] = dict(
+  text="Lean 4 theorems, for every table, key, direction, number of chunks and chunk length: the external chunk sort (chunking, per-chunk stable sort, first-minimal k-way merge as heapq.merge/_shortlistmergesorted do it) equals the in-memory stable sort for every buffersize >= 1 (sort_buffersize_irrelevant), the result is ordered under the C04 relation, a permutation, stable, and uniquely determined by that specification; mergesort = sort of the concatenation (also presorted). Tie: the real sort is run under every buffersize 1..nrows+2 and None x cache x pass x tempdir and must equal the model's row sequence exactly; mergesort vs model and vs sort(cat).",
+  note="Assumed: list.sort stability (incl. reverse=True), heapq.merge tie-breaking by iterable order, min/max return the first extremal element, pickle round-trips rows. mergesort is modelled for tables over one header (different headers are compared against sort(cat) on the real code only).",
+  technique="Lean 4 proof (strong induction on remaining run length; uniqueness of stable sort) + differential correspondence over all buffer sizes",
+  ref="DESIGN.md section 3, C05")
